@@ -572,7 +572,9 @@ func rangeLimbs(it *absint.Interp, name string, w int, hi []*big.Int) absint.Ptr
 	return absint.PtrV{Obj: len(it.St.Objs) - 1, Idx: -1}
 }
 
-func pow2m1(k int) *big.Int { return new(big.Int).Sub(new(big.Int).Lsh(big.NewInt(1), uint(k)), big.NewInt(1)) }
+func pow2m1(k int) *big.Int {
+	return new(big.Int).Sub(new(big.Int).Lsh(big.NewInt(1), uint(k)), big.NewInt(1))
+}
 
 func reportFindings(r *rep.Report, p *load.Program, rule, subject string, it *absint.Interp, allow func(f absint.Finding) (string, bool)) int {
 	cfg := p.Cfg.Name
@@ -723,4 +725,3 @@ func ruleMagnitudesModm(r *rep.Report, p *load.Program) {
 		}
 	}
 }
-
